@@ -297,9 +297,18 @@ func enumerate(yield func(Case) bool) {
 
 // ---- tests ---------------------------------------------------------------------------------------
 
-func TestExhaustive(t *testing.T) { outerT = t; vstat.Enumerate(t, prop, enumerate, run) }
-func TestRandom(t *testing.T)     { outerT = t; vstat.Check(t, prop, genCase, run) }
-func TestStress(t *testing.T)     { outerT = t; vstat.Check(t, prop, genRace, run) }
+func TestExhaustive(t *testing.T) {
+	outerT, currentTest = t, "TestExhaustive"
+	vstat.Enumerate(t, prop, enumerate, run)
+}
+func TestRandom(t *testing.T) {
+	outerT, currentTest = t, "TestRandom"
+	vstat.Check(t, prop, genCase, run)
+}
+func TestStress(t *testing.T) {
+	outerT, currentTest = t, "TestStress"
+	vstat.Check(t, prop, genRace, run)
+}
 
 func TestReplay(t *testing.T) {
 	t.Run("TestExhaustive", func(t *testing.T) { outerT = t; vstat.Replay(t, prop, "TestExhaustive", run) })
@@ -311,7 +320,7 @@ func TestReplay(t *testing.T) {
 
 // a subscribe parked before the interest lock while its stream dies: nothing may remain
 func TestRegSubscribeVsClose(t *testing.T) {
-	outerT = t
+	outerT, currentTest = t, t.Name()
 	for flag := 0; flag <= 1; flag++ {
 		vstat.One(t, prop, Case{Kind: kindSeq, NAcc: 2, NClients: 1, Ops: []Op{
 			{K: opRawOpen, Acc: 0}, {K: opRawOpen, Acc: 1},
@@ -325,7 +334,7 @@ func TestRegSubscribeVsClose(t *testing.T) {
 // the subscribing stream dies / is evicted / its space closes exactly between "interest
 // recorded" and "tags registered" while a sibling stream holds the same patterns
 func TestRegSubscribeParkedAtTagging(t *testing.T) {
-	outerT = t
+	outerT, currentTest = t, t.Name()
 	for flag := 0; flag <= 4; flag++ {
 		vstat.One(t, prop, Case{Kind: kindSeq, NAcc: 3, NClients: 1, Ops: []Op{
 			{K: opRawOpen, Acc: 0}, {K: opRawOpen, Acc: 1}, {K: opRawOpen, Acc: 2},
@@ -339,7 +348,7 @@ func TestRegSubscribeParkedAtTagging(t *testing.T) {
 
 // "space/pattern" routing tags: a malformed space id must not alias a pattern prefix
 func TestRegSpaceTagAlias(t *testing.T) {
-	outerT = t
+	outerT, currentTest = t, t.Name()
 	vstat.One(t, prop, Case{Kind: kindSeq, NAcc: 2, NClients: 1, Ops: []Op{
 		{K: opRawOpen, Acc: 0}, {K: opRawOpen, Acc: 1},
 		{K: opRawSub, S: 0, Sp: 2, P: [][]int{{sgB}}},               // space "s0/a", pattern "b"
@@ -351,7 +360,7 @@ func TestRegSpaceTagAlias(t *testing.T) {
 
 // one client, two subscriptions matching the same topic, echo through the relay, resync, eviction
 func TestRegClientRoundTrip(t *testing.T) {
-	outerT = t
+	outerT, currentTest = t, t.Name()
 	vstat.One(t, prop, Case{Kind: kindSeq, NAcc: 3, NClients: 2, Ops: []Op{
 		{K: opCliSub, S: 0, P: [][]int{{sgA, sgStar}}}, {K: opCliSub, S: 0, P: [][]int{{sgA, sgTail}}},
 		{K: opCliSub, S: 1, P: [][]int{{sgTail}}},
